@@ -64,6 +64,55 @@ def run_layout(job):
     return evs, facts
 
 
+# versions whose bump changes the length of the text (1.2.9 -> 1.2.10, 0999 -> 11000, -beta dropped)
+LEGACY = [("{pycalver}", "v202101.0999-beta", "202101.999b0"), ("{semver}", "1.2.9", "1.2.9"), ("v{year}{build}{release}", "v2021.1001-beta", "2021.1001b0"), ("{pycalver}", "v202101.1001", "202101.1001")]
+LEGACY_RAW = ["ver {version} here", "pep={pep440_version}", 'badge/{version}-x', '"{pep440_version}"']
+
+
+def run_legacy(job):
+    """a project with a legacy version pattern: occurrences placed by the generator, expected texts taken from what bumpver announces / prints"""
+    seed, opts = job
+    rng = random.Random(seed)
+    vp, old, pep = LEGACY[seed % len(LEGACY)]
+    raws = rng.sample(LEGACY_RAW, rng.randrange(1, 4))
+    sep = rng.choice(["\n", "\r\n", "\r"])
+    fill = layouts.FILL_PLAIN + (layouts.FILL_HOSTILE if opts.get("hostile") else [])
+    lines, occ = [], []
+    for _ in range(rng.randrange(1, 6)):
+        lines.append(rng.choice(fill))
+    for pi, raw in enumerate(raws):
+        text = raw.replace("{version}", old).replace("{pep440_version}", pep)
+        if rng.random() < 0.6 and lines:
+            k = rng.randrange(len(lines))
+            if sum(1 for o in occ if o[0] == k) < 2 and not any(o[0] == k and o[3] == pi + 1 for o in occ):
+                base = lines[k] + " " if lines[k] and not lines[k].endswith(" ") else lines[k]
+                occ.append((k, len(base), len(base) + len(text), pi + 1)); lines[k] = base + text
+                continue
+        lines.append("# " + text + " tail"); occ.append((len(lines) - 1, 2, 2 + len(text), pi + 1))
+    content = sep.join(lines) + (sep if rng.random() < 0.7 else "")
+    flags = (["--patch"] if vp == "{semver}" else []) + (["--tag", rng.choice(["final", "rc"])] if vp != "{semver}" and rng.random() < 0.5 else []) + ["--date", "2021-03-09"]
+    with drive.scratch_dir("leg") as d:
+        proj = project.Project(os.path.join(d, "p"), vcs=None)
+        proj.write("bumpver.toml", project.bumpver_toml(old, vp, [("doc.txt", raws)]))
+        proj.write("doc.txt", content.encode("utf-8"))
+        proj.write("NOTES.txt", "unconfigured %s\n" % old)
+        before = proj.snapshot(with_mtime=True)
+        r = drive.cli(["update"] + flags, cwd=proj.root)
+        after = proj.snapshot(with_mtime=True)
+        r2 = drive.cli(["test", old, vp] + flags)
+    new = r.new_version()
+    newpep = r2.pep440() or r2.new_version()
+    evs = []
+    if new and newpep and r2.new_version() == new:
+        texts = [raw.replace("{version}", new).replace("{pep440_version}", newpep) for raw in raws]
+        evs.append(dict(ev="subst", old=glue.cp(content), new=glue.cp(after["doc.txt"][0].decode("utf-8")), ok=r.exit == 0, texts=[glue.cp(t) for t in texts],
+                        occ=[dict(line=a + 1, start=b, end=c, pat=p) for a, b, c, p in occ], file="doc.txt", seed=seed, locale_c=False,
+                        dbg="legacy layout seed=%s vp=%s %s -> %s raws=%s" % (seed, vp, old, new, raws)))
+    facts = dict(seed=seed, vp=vp, old=old, new=new, exit=r.exit, exc=r.exc, flags=flags, locale_c=False, cfg_has_new=(new is not None and ('current_version = "%s"' % new) in after.get("bumpver.toml", (b"",))[0].decode()),
+                 untouched_changed=[k for k in ("NOTES.txt",) if before.get(k) != after.get(k)], extra_files=sorted(set(after) - set(before)), n_files=1, shared_lines=0)
+    return evs, facts
+
+
 def validate(ctx, results, name):
     events = []
     for evs, facts in results:
@@ -85,6 +134,7 @@ def run(ctx):
     n = ctx.pick(500, 20000)
     jobs = [(ctx.seed * 1000003 + i, dict(gen=dict(hostile=False, stale=0.15, only_partial=0.1))) for i in range(n)]
     results = drive.pmap(run_layout, jobs, hooks=False, chunksize=10)
+    results += drive.pmap(run_legacy, [(ctx.seed * 31 + i, dict()) for i in range(ctx.pick(90, 3000))], hooks=False, chunksize=10)      # legacy engine (v1rewrite)
     events, fails = validate(ctx, results, "C03")
     ok_runs = sum(1 for _e, f in results if f["exit"] == 0)
     ctx.count("layouts", len(results))
